@@ -84,7 +84,7 @@ type resolveRec struct {
 		O []string `json:"o"`
 		D []string `json:"d"`
 	} `json:"spell"`
-	LWK     struct {
+	LWK struct {
 		OK   bool  `json:"ok"`
 		Addr nameT `json:"addr"`
 	} `json:"lwk"`
@@ -500,7 +500,7 @@ func resolveReplay(seed int64) func(i int, raw json.RawMessage) hx.Result {
 		c.z.setA(c.host("D"), "127.0.0.1")
 
 		// -- ResolveServer
-		ctx, cancel := context.WithTimeout(context.Background(), 60*time.Second)
+		ctx, cancel := context.WithTimeout(context.Background(), 2*reqTimeout+5*time.Second)
 		defer cancel()
 		res, err := fclient.ResolveServer(ctx, spec.ServerName(origin))
 		wkLog := c.z.take(&c.z.wkLog)
@@ -602,6 +602,9 @@ func resolveReplay(seed int64) func(i int, raw json.RawMessage) hx.Result {
 		if !plain(r.Origin) {
 			nt = oc
 		}
+		if trip && tripped("C16/resolve/trip/request-hangs") {
+			return hx.Result{OK: false, Key: "C16/resolve/trip/request-hangs", What: "not run: earlier client requests did not return within " + reqTimeout.String()}
+		}
 		if trip {
 			v := r.Allowed[match]
 			c.z.mu.Lock()
@@ -617,12 +620,16 @@ func resolveReplay(seed int64) func(i int, raw json.RawMessage) hx.Result {
 				}
 				want = append(want, fmt.Sprintf("(:p%d host=%s sni=%s)", t.Dest.P, c.abstract(c.hp(t.Host.H, t.Host.P)), sni))
 			}
-			cl := fclient.NewClient(fclient.WithWellKnownSRVLookups(true), fclient.WithSkipVerify(true), fclient.WithTimeout(40*time.Second))
+			cl := fclient.NewClient(fclient.WithWellKnownSRVLookups(true), fclient.WithSkipVerify(true), fclient.WithTimeout(reqTimeout))
 			req, err := http.NewRequest("GET", "matrix://"+origin+"/_matrix/federation/v1/version", nil)
 			if err != nil {
 				panic(err)
 			}
+			t0 := time.Now()
 			resp, err := cl.DoHTTPRequest(ctx, req)
+			if err != nil && time.Since(t0) >= reqTimeout {
+				noteHang("C16/resolve/trip/request-hangs")
+			}
 			if resp != nil {
 				_ = resp.Body.Close()
 			}
@@ -708,7 +715,7 @@ func cacheReplay(i int, seed int64, r resolveRec) hx.Result {
 	origin := c.host("S")
 	c.z.wk[strings.ToLower(origin)] = &wkStub{status: 200, cl: true, header: h,
 		body: []byte(`{"m.server":"` + c.host("D") + `:4431"}`)}
-	ctx, cancel := context.WithTimeout(context.Background(), 60*time.Second)
+	ctx, cancel := context.WithTimeout(context.Background(), 2*reqTimeout+5*time.Second)
 	defer cancel()
 	res, err := fclient.LookupWellKnown(ctx, spec.ServerName(origin))
 	t1 := time.Now().Unix()
